@@ -244,10 +244,21 @@ def encode(broker: Any, task_name: str, task_id: str, args: List[Any], labels: O
     return broker.formatter.dumps(m).message
 
 
-def ackable(lab: Lab, i: Any, data: bytes, async_ack: bool, gate_ack: bool = False) -> Any:
+def ackable(lab: Lab, i: Any, data: bytes, async_ack: Any, gate_ack: bool = False) -> Any:
+    """async_ack: False (plain function), True (returns a coroutine), "future" (returns an already scheduled Task/Future,
+    which is a legal Awaitable[None] as well); the ack *effect* is the event ("ack", i)."""
     from taskiq.acks import AckableMessage
 
-    if async_ack:
+    if async_ack == "future":
+        def ack() -> Any:
+            lab.rec("ack_call", i)
+
+            async def eff() -> None:
+                await lab.gate(f"ackf:{i}")
+                lab.rec("ack", i)
+
+            return asyncio.ensure_future(eff())
+    elif async_ack:
         def ack() -> Any:
             lab.rec("ack_call", i)
 
